@@ -252,7 +252,8 @@ def run_c08(ctx):
         repl = nested_tree(g, g.r.randint(1, 3))
         ops += [{"m": "size", "args": [t]}, {"m": "shallow_size", "args": [t]}, {"m": "traverse", "args": [t, g.r.choice([k, len(pts), len(pts) + 3])]},
                 {"m": "insert", "args": [t, repl, g.r.choice([k, k, len(pts) + 1])]}, {"m": "contains", "args": [t, needle]}, {"m": "container", "args": [t, needle]},
-                {"m": "substitute", "args": [t, needle, repl]}, {"m": "equals", "args": [t, needle]}, {"m": "shallow_eq", "args": [t, needle]}, {"m": "to_string", "args": [t]}]
+                {"m": "substitute", "args": [t, needle, repl]}, {"m": "equals", "args": [t, needle]}, {"m": "shallow_eq", "args": [t, needle]}, {"m": "to_string", "args": [t]},
+                {"m": "find", "args": [t, needle, 0, g.r.randint(0, 6)]}, {"m": "find", "args": [t, g.r.choice([{"k": "int", "v": 0}, {"k": "bool", "v": True}, {"k": "float", "v": 0}, {"k": "list", "v": []}]), g.r.randint(0, 2), g.r.randint(0, 5)]}]
     cs = [{"id": "itemapi-%03d" % j, "api": "item", "ops": ops[j:j + 500]} for j in range(0, len(ops), 500)]
     run_events(ctx, "item_api", cs, spec="TraceApi")
 
@@ -416,6 +417,14 @@ def run_c19(ctx):
     run_events(ctx, "rand_list", random_instr_cases(ctx, LISTREC + LISTVAL, 60 if q else 8000, ctx.seed, small_ints=True))
     # LIST.GET followed by execution of the pushed record: chains of steps validated one by one
     run_events(ctx, "list_roundtrip", list_roundtrip_cases(ctx, 100 if q else 10000))
+    # the helper behind the value instructions, called directly (every n, a running count to start from, every kind of pattern)
+    gi = gen.Gen(ctx.seed + 9, ctx.registry, small_ints=True)
+    ops = []
+    for i in range(150 if q else 20000):
+        t = nested_tree(gi, gi.r.randint(1, 14))
+        pat = gi.r.choice([{"k": "int", "v": 0}, {"k": "bool", "v": True}, {"k": "float", "v": 0}, {"k": "list", "v": []}, {"k": "id", "v": "q"}, {"k": "ins", "v": "NOOP"}, {"k": "ivec", "v": []}])
+        ops.append({"m": "find", "args": [t, pat, gi.r.choice([0, 0, 1, 3]), gi.r.randint(0, 7)]})
+    run_events(ctx, "item_find", [{"id": "find-%03d" % j, "api": "item", "ops": ops[j:j + 500]} for j in range(0, len(ops), 500)], spec="TraceApi")
     # the same through whole runs: nested records (a record inside a record), non-finite floats among the literals, growth caps
     # of a few ITEMS (a record of many points is one item)
     g = gen.Gen(ctx.seed + 7, RANDFREE(ctx.registry), small_ints=True)
